@@ -74,6 +74,12 @@ def _cur(obj) -> bool:
     root = CTX.current_root
     if root is None:
         return True
+    # objects built by new_controller() carry the root of their scenario: no file-system access is needed (the path
+    # probing below raises - and used to answer True - for a stale component whose scratch directory has already been
+    # removed, which let the late asynchronous shutdown of an EARLIER scenario's component into the next history)
+    tag = getattr(obj, "__dict__", {}).get("_verif_root")
+    if tag is not None:
+        return tag == root
     try:
         if hasattr(obj, "specification"):          # ComponentState
             path = obj.specification.workingDirectory.path
@@ -87,7 +93,9 @@ def _cur(obj) -> bool:
             return True
         return os.path.realpath(path).startswith(os.path.realpath(root))
     except Exception:
-        return True
+        # the working directory of the object cannot be determined any more: it belongs to a scenario whose scratch
+        # directory has been removed (objects of the running scenario always have theirs)
+        return False
 
 
 def _ref_of(component) -> str:
@@ -414,6 +422,13 @@ def new_controller(exp, initial_stage: int = 0, do_restart_sources=None):
         job = stage.jobWithName(spec.identification.componentName)
         comps.append(workflow.ComponentState(job, wg, create_engine=bool(stage.index >= initial_stage)))
     ctrl = control.Controller(exp, do_restart_sources=do_restart_sources)
+    root = CTX.current_root
+    if root is not None:
+        for obj in comps + [c.engine for c in comps if getattr(c, "_engine", None) is not None] + [ctrl]:
+            try:
+                obj.__dict__["_verif_root"] = root
+            except Exception:
+                pass
     return ctrl, comps
 
 
